@@ -364,6 +364,85 @@ def work_requests(chunk):
     return {"evals": n, "hist": hist, "viol": viol, "transitions": len(chunk)}
 
 
+# Token-level documents: every sequence of <= 3 tokens over a vocabulary of the tokens the server's
+# cursor logic looks at (dots, names, brackets, keywords), bare and after a line that defines the
+# names. Most do not parse; each must still be answered. One server per chunk: the documents are
+# sent as successive didChange of one open document, the server is restarted if it dies.
+TOKDOC_VOCAB = [".", "t", "a", "let", "=", "1", ";", "(", ")", "{", "}", "import", '"s"', ","]
+TOKDOC_PREFIXES = [("bare", ""), ("after-definitions", "let t = {a = 1};\n")]
+
+
+def token_documents(maxlen, vocab):
+    for ln in range(1, maxlen + 1):
+        for toks in itertools.product(vocab, repeat=ln):
+            for pname, pre in TOKDOC_PREFIXES:
+                yield pname, pre + " ".join(toks)
+
+
+def work_token_documents(chunk):
+    hist = {}
+    viol = []
+    nreq = 0
+    d = make_ws()
+    c = None
+    try:
+        for pname, text in chunk:
+            bad = None
+            try:
+                if c is None:
+                    c = lsp.Client(d)
+                    c.open("a.ucg", text)
+                else:
+                    c.change("a.ucg", text, decoy=False)
+                c.sync()
+                uri = c.uri("a.ucg")
+                ids = {}
+                for (line, ch) in positions_for(text):
+                    if line > 3:
+                        continue
+                    tdp = {"textDocument": {"uri": uri}, "position": {"line": line, "character": ch}}
+                    for kind in ("hover", "definition", "completion"):
+                        ids[c.send_request("textDocument/" + kind, tdp)] = (kind, line, ch)
+                ids[c.send_request("textDocument/semanticTokens/full", {"textDocument": {"uri": uri}})] = ("semanticTokens", 0, 0)
+                nreq += len(ids)
+                answers = c.wait_for(list(ids))
+                for i, (kind, line, ch) in ids.items():
+                    m = answers.get(i)
+                    if m is None:
+                        bad = ("request-not-answered:%s" % kind, {"position": [line, ch]})
+                        break
+                    if "error" in m:
+                        bad = ("request-error:%s" % kind, {"position": [line, ch], "error": m["error"]})
+                        break
+                    res = m.get("result")
+                    if kind == "hover" and res and res.get("range") and range_ok(res["range"], text):
+                        bad = ("range-outside-document:hover", {"position": [line, ch], "why": range_ok(res["range"], text)})
+                        break
+                if bad is None and not c.alive():
+                    bad = ("server-died", {})
+            except lsp.ServerDied as e:
+                bad = ("server-died", {"error": str(e)})
+            if bad and (bad[0] == "server-died" or bad[0].startswith("request-not-answered")):
+                # find which request kills it: replay this document alone, one request at a time
+                try:
+                    if c is not None:
+                        c.shutdown()
+                except Exception:
+                    pass
+                c = None
+            k = "token-document-%s:%s" % (pname, "all-answered" if bad is None else "VIOLATION")
+            hist[k] = hist.get(k, 0) + 1
+            if bad:
+                viol.append((bad[0], [("open", "a.ucg", "token-document")], dict(bad[1], token_text=text, prefix=pname)))
+    finally:
+        try:
+            if c is not None:
+                c.shutdown()
+        finally:
+            shutil.rmtree(d, ignore_errors=True)
+    return {"evals": nreq, "hist": hist, "viol": viol, "transitions": len(chunk)}
+
+
 def alphabet(texts_per_doc):
     steps = []
     for doc in ("a.ucg", "lib.ucg"):
@@ -407,7 +486,9 @@ def run(ctx):
                 "document are compared with a fresh server. For each of %d texts opened alone: hover, definition and completion at every token "
                 "start, inside every token, at every line end and beyond the text, semanticTokens/full and 4 workspace/symbol queries: all "
                 "answered, all ranges inside their document; syntax diagnostics compared with ucglib's parser, buildable texts with the "
-                "builder. One 30-message covering tour." % (len(full), "the full alphabet" if thorough else "a 3-text alphabet (14 messages)", len(TEXTS)))
+                "builder. Every document of <= 3 tokens over a %d-token vocabulary (dots, names, brackets, keywords; bare and after a line that "
+                "defines the names), most of which do not parse: hover, definition, completion at every position and semanticTokens, all "
+                "answered. One 30-message covering tour." % (len(full), "the full alphabet" if thorough else "a 3-text alphabet (14 messages)", len(TEXTS), len(TOKDOC_VOCAB) if thorough else 10))
     viol = []
     transitions = 0
     states = set()
@@ -430,6 +511,16 @@ def run(ctx):
         for k, v in part["hist"].items():
             ctx.outcome(k, v)
         viol.extend(part["viol"])
+    tokdocs = list(token_documents(3, TOKDOC_VOCAB if thorough else TOKDOC_VOCAB[:10]))
+    if thorough:
+        tokdocs += [x for x in token_documents(4, TOKDOC_VOCAB[:8]) if x[1].count(" ") >= 3 + (x[0] != "bare") * 4]
+    for part in core.pmap(work_token_documents, tokdocs, chunk=60):
+        ctx.count(part["evals"], part["evals"])
+        for k, v in part["hist"].items():
+            ctx.outcome(k, v)
+        viol.extend(part["viol"])
+        transitions += part["transitions"]
+    ctx.coverage_extra["token_documents"] = len(tokdocs)
     ctx.sample({"trace": [["open", "a.ucg", "valid-import"], ["open", "lib.ucg", "lib-no-v"], ["change", "a.ucg", "valid-import"]],
                 "spec": "diagnostics of a.ucg = fresh server on a.ucg's text"})
     ctx.sample({"requests_on": "non-ascii-then-error", "positions": positions_for(TEXTS["non-ascii-then-error"])[:6]})
@@ -459,6 +550,9 @@ def run(ctx):
                     budget -= 1
                     t = shrink_trace(trace, kind)
                 sig = "%s: %s" % (kind, abstract_trace(t, det))
+        elif "token_text" in det:
+            first = det["token_text"].split("\n")[-1].split(" ")
+            sig = "%s:token-document:%s:starts-with %s" % (kind, det["prefix"], " ".join(first[:2]))
         elif kind.startswith(("range-outside-document", "syntax-diagnostic-position")):
             nonascii = any(ord(ch) > 127 for ch in TEXTS[det["text"]])
             sig = "%s:%s" % (kind, "after-non-ascii-text" if nonascii else det["text"])
@@ -475,6 +569,9 @@ def run(ctx):
 
 def replay(case):
     trace = [tuple(s) for s in case["trace"]]
+    if "token_text" in case["detail"]:
+        part = work_token_documents([(case["detail"]["prefix"], case["detail"]["token_text"])])
+        return not part["viol"], {"violations": [(v[0], v[2]) for v in part["viol"]]}
     if case["failure"] in ("diagnostics-differ-from-fresh-server", "server-died") and "text" not in case["detail"]:
         v = run_trace(trace)
         return not v, {"violations": v}
